@@ -126,6 +126,8 @@ def main():
     p.add_argument("name"), p.add_argument("--tier", default="quick"), p.add_argument("--checks")
     p = sub.add_parser("all")
     p.add_argument("--tier", default="quick")
+    p.add_argument("--part", default="0/1", help="i/n: only every n-th change, starting with the i-th (to run several of these side by side)")
+    p.add_argument("--skip", default="", help="comma-separated names to leave out")
     sub.add_parser("table")
     a = ap.parse_args()
     if a.cmd == "ingest":
@@ -133,9 +135,10 @@ def main():
     if a.cmd == "run":
         rerun(a.name, a.tier, a.checks.split(",") if a.checks else None)
     elif a.cmd == "all":
-        for name in sorted(os.listdir(SEEDED)):
-            if os.path.exists(os.path.join(SEEDED, name, "meta.json")):
-                rerun(name, a.tier, None)
+        i, n = (int(v) for v in a.part.split("/"))
+        names = [name for name in sorted(os.listdir(SEEDED)) if os.path.exists(os.path.join(SEEDED, name, "meta.json")) and name not in a.skip.split(",")]
+        for name in names[i::n]:
+            rerun(name, a.tier, None)
     elif a.cmd == "table":
         table()
 
